@@ -10,7 +10,7 @@ From Coq Require Import NArith List String Bool Arith Lia.
 From HW Require Import Word Chunks Packet Mem Stream X86 Portable Wasm.
 From HW.Refine Require Import ChunksFacts SourceTie PacketTie.
 From HW.Facts Require Import RustLite.
-From HWGen Require Import SrcPacket SrcWasmFull.
+From HWGen Require Import SrcPortable SrcPacket SrcWasmFull.
 Import ListNotations.
 Local Open Scope N_scope.
 
@@ -22,16 +22,14 @@ Definition wgenv_of (c : wcore) (bk : packet) : env :=
    ("self.mul1L"%string, VX (w_mul1L c)); ("self.mul1H"%string, VX (w_mul1H c));
    ("self.buffer.buf"%string, VA (buf bk)); ("self.buffer.buf_index"%string, VN (N.of_nat (Packet.idx bk)))].
 
-(* nothing is supplied to the interpreter from outside (the name is kept so that statements read the same) *)
-Definition wext (p : profile) : string -> env -> list val -> option callres := fun _ _ _ => None.
-
-(* one table: the functions of wasm.rs, internal::unordered_load3, and HashPacket's methods under "buffer.<method>" *)
-Definition wall_fns : list (string * fndef) :=
-  wsrc_fns ++ [("unordered_load3"%string, pkt_unordered_load3)] ++ map (fun nd => (("buffer." ++ fst nd)%string, snd nd)) pkt_fns.
+(* nothing is supplied to the interpreter from outside, and the table is the one table of SourceTie.v (the names are kept so that
+   statements read the same) *)
+Definition wext (p : profile) : string -> env -> list val -> option callres := noext.
+Definition wall_fns : list (string * fndef) := all_fns.
 
 Ltac wl_gen c1 c2 c3 c4 c5 c6 c7 :=
   cbv beta iota zeta delta
-    [run_fn find_fn wall_fns wsrc_fns pkt_fns pkt_unordered_load3 map app String.append wext
+    [run_fn find_fn wall_fns all_fns src_fns wsrc_fns pkt_fns map app String.append wext noext
      sub_env merge_back penv
      wsrc_WasmHash_new wsrc_WasmHash_zipper_merge wsrc_WasmHash_update wsrc_WasmHash_permute_and_update
      wsrc_WasmHash_finalize64 wsrc_WasmHash_finalize128 wsrc_WasmHash_finalize256 wsrc_WasmHash_modular_reduction
